@@ -121,6 +121,10 @@ breaking('N2-norm-without-axis', {'C06': 'N2'}, edit=[(M + 'gellmann.py', "ret =
 breaking('AR1-swapped-dims', {'C06': 'AR1'}, edit=[(M + 'entangle/cha.py', "numqi.manifold.SeparableDensityMatrix(dim0, dim1, num_state, dtype=torch.complex128)", "numqi.manifold.SeparableDensityMatrix(dim1, dim0, num_state, dtype=torch.complex128)")])
 breaking('ST1-derived-before-append', {'C18': 'ST1'}, edit=[(M + 'unique_determine/_internal.py', "    basis_list = [basis0,basis1,basis2,basis3]\n", "    basis_list = [basis0,basis1,basis2,basis3]\n    tmp0 = np.concatenate(basis_list, axis=0)\n"), (M + 'unique_determine/_internal.py', "\n    tmp0 = np.concatenate(basis_list, axis=0)\n    ret = tmp0[:,:,np.newaxis]", "\n    ret = tmp0[:,:,np.newaxis]")])
 breaking('PT3-early-shortcut', {'C17': 'PT3'}, edit=[(M + 'dicke.py', "    ret = []\n    state_conj = state.conj()\n", "    if dimBk==dimB:\n        tmp0 = state.reshape(-1)\n        return tmp0.reshape(-1,1) * tmp0.conj()\n    ret = []\n    state_conj = state.conj()\n")])
+breaking('E4-overlap-swapped', {'C08': 'E4'}, edit=[(M + 'gate/_pauli.py', "tmp1 = np.dot(self.F2[(2+self.num_qubit):], b.F2[2:(2+self.num_qubit)]) % 2", "tmp1 = np.dot(self.F2[2:(2+self.num_qubit)], b.F2[(2+self.num_qubit):]) % 2")])
+breaking('E4-carry-dropped', {'C08': 'E4'}, edit=[(M + 'gate/_pauli.py', "        tmp0[0] = (tmp0[0] + tmp1 + tmp2) % 2", "        tmp0[0] = (tmp0[0] + tmp1) % 2")])
+breaking('E4-inverse-no-b1', {'C08': 'E4'}, edit=[(M + 'gate/_pauli.py', "tmp0[0] = (self.F2[0] + self.F2[1] + np.dot(self.F2[2:(2+self.num_qubit)], self.F2[(2+self.num_qubit):])) % 2", "tmp0[0] = (self.F2[0] + np.dot(self.F2[2:(2+self.num_qubit)], self.F2[(2+self.num_qubit):])) % 2")])
+preserving('E4-reordered-sum', ['C08'], edit=[(M + 'gate/_pauli.py', "        tmp0[0] = (tmp0[0] + tmp1 + tmp2) % 2", "        tmp0[0] = (tmp2 + tmp0[0] + tmp1) % 2")])
 breaking('refix-get_gme_2qubit', {'C13': 'F2', 'C05': 'F2'}, patch_reverse='fix_78cd862.diff')
 
 # ---- textual breaking edits, one per rule family
